@@ -313,13 +313,14 @@ def _touch_all(doc):
 
 
 # =============================================================================================== C03
-C03_HISTORIES = ["none", "read_all", "body", "style", "meta", "add_file", "del_part", "setpart_fresh", "setpart_cached"]
+C03_HISTORIES = ["none", "read_all", "body", "style", "meta", "add_file", "del_part", "setpart_fresh", "setpart_cached",
+                 "setpart_read"]
 C03_CONFIGS = [("zip", "path"), ("zip", "bytesio"), ("folder", "path")]
 
 
 # edits applied to the reopened document just before the second, in-place save (the target already exists and
 # holds the parts of the first save: nothing of it may survive that the document no longer has)
-C03_LATE_HISTORIES = ["del_part@2", "add_file@2", "setpart_fresh@2"]
+C03_LATE_HISTORIES = ["del_part@2", "add_file@2", "setpart_fresh@2", "setpart_read@2"]
 
 
 def _c03_gen(con, sigcase, count, seed):
@@ -403,12 +404,14 @@ def _c03_edit(doc, hist, info, td):
         doc.del_part(part)
         info["removed"] = {part}
         return set(), lambda files: (part not in files, f"deleted part {part!r} is still in the saved package")
-    if hist in ("setpart_fresh", "setpart_cached"):
+    if hist in ("setpart_fresh", "setpart_cached", "setpart_read"):
         raw = info["files"]["content.xml"].replace(b"</office:body>", RAW_COMMENT + b"</office:body>")
         assert raw != info["files"]["content.xml"]
         if hist == "setpart_cached":
             doc.body
         doc.set_part("content.xml", raw)
+        if hist == "setpart_read":
+            doc.get_part("content.xml")       # a reader between set_part and save must see (and keep) the new bytes
 
         def chk(files):
             ok = _canon(files["content.xml"]) == _canon(raw)
@@ -534,7 +537,9 @@ def _c03_call(con, fn, argvals, labels):
             except Exception as e:  # noqa
                 fail(("ensures:reopen", f"cycle {cyc}: reopening raised {type(e).__name__}: {e}"))
                 return res
-            doc = doc2
+            # the next cycle continues with a document nobody has read yet (the checks above loaded every part of
+            # doc2, which hides defects of lazily loaded parts)
+            doc = doc2 if target == "bytesio" else Document(reopen_arg)
             notes.append(f"cycle {cyc}: {len(files)} parts")
     res.outcome = "; ".join(notes)
     return res
